@@ -41,6 +41,26 @@ theorem LimRel.map_pointwise (isLimit : ε → Bool) {β : Type} (fL fU : β →
     · rw [heq]; exact LimRel.append_left isLimit [fU x] _ _ ih
     · rw [he]; exact LimRel.limit_error isLimit e _ _ hl
 
+theorem LimRel.map_pointwise_mem (isLimit : ε → Bool) {β : Type} (fL fU : β → Except ε ρ) (xs : List β)
+    (h : ∀ x ∈ xs, fL x = fU x ∨ ∃ e, fL x = .error e ∧ isLimit e = true) :
+    LimRel isLimit (xs.map fL) (xs.map fU) := by
+  induction xs with
+  | nil => exact .refl _ _
+  | cons x xs ih =>
+    simp only [List.map_cons]
+    rcases h x List.mem_cons_self with heq | ⟨e, he, hl⟩
+    · rw [heq]; exact LimRel.append_left isLimit [fU x] _ _ (ih (fun y hy => h y (List.mem_cons_of_mem _ hy)))
+    · rw [he]; exact LimRel.limit_error isLimit e _ _ hl
+
+theorem fst_mem_of_mem_zipIdx {β : Type} (l : List β) (n : Nat) (x : β × Nat) (h : x ∈ l.zipIdx n) : x.1 ∈ l := by
+  induction l generalizing n with
+  | nil => simp at h
+  | cons y ys ih =>
+    simp only [List.zipIdx_cons, List.mem_cons] at h
+    rcases h with rfl | h
+    · exact List.mem_cons_self
+    · exact List.mem_cons_of_mem _ (ih _ h)
+
 /-- `mapM` in `Except`: equal results, or a limit error -/
 theorem mapM_lim (isLimit : ε → Bool) {β γ : Type} (fL fU : β → Except ε γ)
     (h : ∀ x, fL x = fU x ∨ ∃ e, fL x = .error e ∧ isLimit e = true) (xs : List β) :
@@ -102,16 +122,16 @@ section ops
 variable {χ ρ ν ε κ α : Type} [DecidableEq κ]
 
 /-- an operator that does not look at the limit environment and returns an `Err` item as it is -/
-theorem StepRel.same {σ : Type} (isLimit : ε → Bool) (t : Trans σ ε ρ)
+theorem StepRel0.same {σ : Type} (isLimit : ε → Bool) (t : Trans σ ε ρ)
     (hf : ∀ st e, t.done st = false → ∃ rest, (t.step st (.error e)).2 = .error e :: rest) :
-    StepRel isLimit t t where
+    StepRel0 isLimit t t where
   done _ := rfl
   step _ _ := ⟨.refl _ _, fun _ => rfl⟩
   flush _ := .refl _ _
   fwd st e hd := by obtain ⟨rest, h⟩ := hf st e hd; exact ⟨e, rest, h, Or.inl rfl⟩
 
 theorem guardT_stepRel (isLimit : ε → Bool) (L : LimEnv ε) (hL : L.Lawful isLimit) (site : Site) :
-    StepRel isLimit (guardT (ρ := ρ) L site) (guardT LimEnv.unlimited site) where
+    StepRel0 isLimit (guardT (ρ := ρ) L site) (guardT LimEnv.unlimited site) where
   done _ := rfl
   flush _ := .refl _ _
   fwd st e _ := by
@@ -146,7 +166,7 @@ theorem guard_limRel (isLimit : ε → Bool) (L : LimEnv ε) (hL : L.Lawful isLi
   | none => exact (guardT_stepRel isLimit L hL site).run _ a b h
 
 theorem mapT_stepRel (isLimit : ε → Bool) (fL fU : ρ → Stream ε ρ)
-    (h : ∀ r, LimRel isLimit (fL r) (fU r)) : StepRel isLimit (mapT fL) (mapT fU) where
+    (h : ∀ r, LimRel isLimit (fL r) (fU r)) : StepRel0 isLimit (mapT fL) (mapT fU) where
   done _ := rfl
   flush _ := .refl _ _
   fwd _ e _ := ⟨e, [], rfl, Or.inl rfl⟩
@@ -159,7 +179,7 @@ theorem mapT_stepRel (isLimit : ε → Bool) (fL fU : ρ → Stream ε ρ)
       rw [(h r).eq_of_allOk isLimit _ _ hok]
 
 theorem flatMapT_stepRel (isLimit : ε → Bool) (gL gU : Nat → ρ → Stream ε ρ)
-    (h : ∀ k r, LimRel isLimit (gL k r) (gU k r)) : StepRel isLimit (flatMapT gL) (flatMapT gU) where
+    (h : ∀ k r, LimRel isLimit (gL k r) (gU k r)) : StepRel0 isLimit (flatMapT gL) (flatMapT gU) where
   done _ := rfl
   flush _ := .refl _ _
   fwd _ e _ := ⟨e, [], rfl, Or.inl rfl⟩
@@ -176,33 +196,56 @@ theorem filterRow_limRel (isLimit : ε → Bool) (S : Sem χ ρ ν ε κ α) (Q 
     (hS : S.LimitLawful L.coll isLimit) (env : ρ) (pred : χ) (r : ρ) :
     LimRel isLimit (filterRow S Q L env pred r) (filterRow S Q LimEnv.unlimited env pred r) := by
   simp only [filterRow, LimEnv.unlimited]
-  rcases hS.eval pred env r with h | ⟨e, he, hl⟩
-  · rw [h]; exact .refl _ _
-  · rw [he]; exact LimRel.limit_error isLimit e _ _ hl
+  cases hpL : S.park L.coll pred env r with
+  | some e =>
+    rcases hS.park pred env r with hp | ⟨e', he', hl⟩
+    · rw [← hp, hpL]; exact .refl _ _
+    · rw [hpL] at he'; injection he' with he'; subst he'
+      exact LimRel.limit_error isLimit _ _ _ hl
+  | none =>
+    have hpU : S.park (fun _ _ => none) pred env r = none := by
+      rcases hS.park pred env r with hp | ⟨e', he', _⟩
+      · rw [← hp]; exact hpL
+      · rw [hpL] at he'; cases he'
+    rw [hpU]
+    simp only
+    rcases hS.eval pred env r hpL with h | ⟨e, he, hl⟩
+    · rw [h]; exact .refl _ _
+    · rw [he]; exact LimRel.limit_error isLimit e _ _ hl
 
 omit [DecidableEq κ] in
 theorem projectRow_lim (isLimit : ε → Bool) (S : Sem χ ρ ν ε κ α) (L : LimEnv ε)
-    (hS : S.LimitLawful L.coll isLimit) (env : ρ) (projs : List (String × χ)) (r : ρ) :
+    (hS : S.LimitLawful L.coll isLimit) (env : ρ) (projs : List (String × χ)) (r : ρ)
+    (hnp : ∀ p ∈ projs, S.park L.coll p.2 env r = none) :
     projectRow S L env projs r = projectRow S LimEnv.unlimited env projs r ∨
       ∃ e, projectRow S L env projs r = .error e ∧ isLimit e = true := by
   unfold projectRow
-  apply foldlM_lim
-  intro acc p
-  simp only [LimEnv.unlimited]
-  rcases hS.eval p.2 env r with h | ⟨e, he, hl⟩
-  · left; rw [h]
-  · right; exact ⟨e, by rw [he]; rfl, hl⟩
+  generalize S.empty = acc
+  induction projs generalizing acc with
+  | nil => left; rfl
+  | cons p ps ih =>
+    simp only [List.foldlM_cons, LimEnv.unlimited]
+    have hp := hnp p List.mem_cons_self
+    rcases hS.eval p.2 env r hp with h | ⟨e, he, hl⟩
+    · rw [h]
+      cases S.eval (fun _ _ => none) p.2 env r with
+      | error e0 => left; rfl
+      | ok v =>
+        have := ih (fun q hq => hnp q (List.mem_cons_of_mem _ hq)) (S.set acc p.1 v)
+        simpa only [Except.map, bind, Except.bind, LimEnv.unlimited] using this
+    · right; exact ⟨e, by rw [he]; rfl, hl⟩
 
 omit [DecidableEq κ] in
 theorem unwindRow_limRel (isLimit : ε → Bool) (S : Sem χ ρ ν ε κ α) (L : LimEnv ε) (hL : L.Lawful isLimit)
-    (hS : S.LimitLawful L.coll isLimit) (site : Site) (env : ρ) (e : χ) (alias : String) (k : Nat) (r : ρ) :
+    (hS : S.LimitLawful L.coll isLimit) (site : Site) (env : ρ) (e : χ) (alias : String) (k : Nat) (r : ρ)
+    (hnp : S.park L.coll e env r = none) :
     LimRel isLimit (unwindRow S L site env e alias k r) (unwindRow S LimEnv.unlimited site env e alias k r) := by
   simp only [unwindRow, LimEnv.unlimited]
   cases ht : L.time (.inner site) k with
   | some err => exact LimRel.limit_error isLimit err _ _ (hL.time _ _ _ ht)
   | none =>
     simp only
-    rcases hS.eval e env r with h | ⟨er, he, hl⟩
+    rcases hS.eval e env r hnp with h | ⟨er, he, hl⟩
     · rw [h]
       cases S.eval (fun _ _ => none) e env r with
       | error err => exact .refl _ _
@@ -220,44 +263,74 @@ theorem unwindRow_limRel (isLimit : ε → Bool) (S : Sem χ ρ ν ε κ α) (L 
 
 omit [DecidableEq κ] in
 theorem orderKeys_lim (isLimit : ε → Bool) (S : Sem χ ρ ν ε κ α) (L : LimEnv ε)
-    (hS : S.LimitLawful L.coll isLimit) (env : ρ) (keys : List (χ × Bool)) (r : ρ) :
+    (hS : S.LimitLawful L.coll isLimit) (env : ρ) (keys : List (χ × Bool)) (r : ρ)
+    (hnp : ∀ k ∈ keys, S.park L.coll k.1 env r = none) :
     orderKeys S L env keys r = orderKeys S LimEnv.unlimited env keys r ∨
       ∃ e, orderKeys S L env keys r = .error e ∧ isLimit e = true := by
   unfold orderKeys
-  apply mapM_lim
-  intro k
-  simp only [LimEnv.unlimited]
-  rcases hS.eval k.1 env r with h | ⟨e, he, hl⟩
-  · left; rw [h]
-  · right; exact ⟨e, by rw [he]; rfl, hl⟩
+  induction keys with
+  | nil => left; rfl
+  | cons k ks ih =>
+    simp only [List.mapM_cons, LimEnv.unlimited]
+    have hp := hnp k List.mem_cons_self
+    rcases hS.eval k.1 env r hp with h | ⟨e, he, hl⟩
+    · rw [h]
+      cases S.eval (fun _ _ => none) k.1 env r with
+      | error e0 => left; rfl
+      | ok v =>
+        rcases ih (fun q hq => hnp q (List.mem_cons_of_mem _ hq)) with h2 | ⟨e, he, hl⟩
+        · left; simp only [Except.map, bind, Except.bind, LimEnv.unlimited] at h2 ⊢; rw [h2]
+        · right; exact ⟨e, by simp only [Except.map, bind, Except.bind] at he ⊢; rw [he], hl⟩
+    · right; exact ⟨e, by rw [he]; rfl, hl⟩
 
 omit [DecidableEq κ] in
 theorem orderByFinish_limRel (isLimit : ε → Bool) (S : Sem χ ρ ν ε κ α) (Q : Quirks)
     (hq : Q.orderByKeepsErr = false) (L : LimEnv ε) (hS : S.LimitLawful L.coll isLimit) (env : ρ)
-    (keys : List (χ × Bool)) (items : Stream ε ρ) :
+    (keys : List (χ × Bool)) (items : Stream ε ρ)
+    (hnp : items.findSome? (fun it => rowParks S L env (keys.map (·.1)) () it) = none) :
     LimRel isLimit (orderByFinish S Q L env keys items) (orderByFinish S Q LimEnv.unlimited env keys items) := by
   simp only [orderByFinish, hq, Bool.false_eq_true, if_false]
-  have hk : ∀ x, keyedRow S L env keys x = keyedRow S LimEnv.unlimited env keys x ∨
+  have hk : ∀ x ∈ items, keyedRow S L env keys x = keyedRow S LimEnv.unlimited env keys x ∨
       ∃ e, keyedRow S L env keys x = .error e ∧ isLimit e = true := by
-    intro x
+    intro x hx
     cases x with
     | error e => left; rfl
     | ok r =>
       simp only [keyedRow]
-      rcases orderKeys_lim isLimit S L hS env keys r with h | ⟨e, he, hl⟩
+      have hrow := (List.findSome?_eq_none_iff.1 hnp) _ hx
+      simp only [rowParks] at hrow
+      have hkeys : ∀ k ∈ keys, S.park L.coll k.1 env r = none := by
+        intro k hk
+        exact (List.findSome?_eq_none_iff.1 hrow) k.1 (List.mem_map.2 ⟨k, hk, rfl⟩)
+      rcases orderKeys_lim isLimit S L hS env keys r hkeys with h | ⟨e, he, hl⟩
       · left; rw [h]
       · right; exact ⟨e, by rw [he]; rfl, hl⟩
-  rcases mapM_lim isLimit _ _ hk items with h | ⟨e, he, hl⟩
+  have hm : items.mapM (keyedRow S L env keys) = items.mapM (keyedRow S LimEnv.unlimited env keys) ∨
+      ∃ e, items.mapM (keyedRow S L env keys) = .error e ∧ isLimit e = true := by
+    clear hnp
+    induction items with
+    | nil => left; rfl
+    | cons x xs ih =>
+      simp only [List.mapM_cons]
+      rcases hk x List.mem_cons_self with heq | ⟨e, he, hl⟩
+      · rw [heq]
+        cases keyedRow S LimEnv.unlimited env keys x with
+        | error e0 => left; rfl
+        | ok y =>
+          rcases ih (fun z hz => hk z (List.mem_cons_of_mem _ hz)) with h2 | ⟨e, he, hl⟩
+          · left; simp only [bind, Except.bind, h2]
+          · right; exact ⟨e, by simp only [bind, Except.bind, he], hl⟩
+      · right; exact ⟨e, by simp only [he, bind, Except.bind], hl⟩
+  rcases hm with h | ⟨e, he, hl⟩
   · rw [h]; exact .refl _ _
   · rw [he]; exact LimRel.limit_error isLimit e _ _ hl
 
 omit [DecidableEq κ] in
-theorem orderByT_stepRel (isLimit : ε → Bool) (S : Sem χ ρ ν ε κ α) (Q : Quirks)
+theorem orderByT_core (isLimit : ε → Bool) (S : Sem χ ρ ν ε κ α) (Q : Quirks)
     (hq : Q.orderByKeepsErr = false) (L : LimEnv ε) (hL : L.Lawful isLimit)
-    (hS : S.LimitLawful L.coll isLimit) (site : Site) (env : ρ) (keys : List (χ × Bool)) :
-    StepRel isLimit (orderByT S Q L site env keys) (orderByT S Q LimEnv.unlimited site env keys) where
+    (site : Site) (env : ρ) (keys : List (χ × Bool)) :
+    StepRelCore isLimit (orderByT S Q L site env keys) (orderByT S Q LimEnv.unlimited site env keys) where
   done _ := rfl
-  flush st := orderByFinish_limRel isLimit S Q hq L hS env keys _
   fwd st e _ := by
     simp only [orderByT, hq]
     cases ht : L.time (.inner site) st.n with
@@ -276,29 +349,38 @@ theorem orderByT_stepRel (isLimit : ε → Bool) (S : Sem χ ρ ν ε κ α) (Q 
         | none => exact ⟨.refl _ _, fun _ => rfl⟩
         | some err => exact ⟨LimRel.limit_error isLimit err _ _ (hL.coll _ _ _ hc), fun h => by simp at h⟩
 
+omit [DecidableEq κ] in
 theorem aggFinish_limRel (isLimit : ε → Bool) (S : Sem χ ρ ν ε κ α) (L : LimEnv ε) (hL : L.Lawful isLimit)
     (hS : S.LimitLawful L.coll isLimit) (site : Site) (env : ρ) (groupBy : List String)
-    (aggs : List (α × String)) (groups : List (κ × List ρ)) :
+    (aggs : List (α × String)) (groups : List (κ × List ρ))
+    (hnp : groups.findSome? (fun g => S.aggPark L.coll aggs env g.2) = none) :
     LimRel isLimit (aggFinish S L site env groupBy aggs groups)
       (aggFinish S LimEnv.unlimited site env groupBy aggs groups) := by
   simp only [aggFinish]
-  apply LimRel.map_pointwise
-  intro g
+  apply LimRel.map_pointwise_mem
+  intro g hg
+  have hg1 := fst_mem_of_mem_zipIdx _ _ g hg
+  have hpark : S.aggPark L.coll aggs env g.1 = none := by
+    split at hg1
+    · simp only [List.mem_singleton] at hg1
+      rw [hg1]; exact hS.aggPark_nil aggs env
+    · obtain ⟨kg, hkg, hkeq⟩ := List.mem_map.1 hg1
+      rw [← hkeq]
+      exact (List.findSome?_eq_none_iff.1 hnp) kg hkg
   simp only [LimEnv.unlimited]
   cases ht : L.time (.inner (.inner site)) g.2 with
   | some e => right; exact ⟨e, rfl, hL.time _ _ _ ht⟩
   | none =>
     simp only
-    rcases hS.aggFinal groupBy aggs env g.1 with h | ⟨e, he, hl⟩
+    rcases hS.aggFinal groupBy aggs env g.1 hpark with h | ⟨e, he, hl⟩
     · left; exact h
     · right; exact ⟨e, he, hl⟩
 
-theorem aggregateT_stepRel (isLimit : ε → Bool) (S : Sem χ ρ ν ε κ α) (L : LimEnv ε) (hL : L.Lawful isLimit)
+theorem aggregateT_core (isLimit : ε → Bool) (S : Sem χ ρ ν ε κ α) (L : LimEnv ε) (hL : L.Lawful isLimit)
     (hS : S.LimitLawful L.coll isLimit) (site : Site) (env : ρ) (groupBy : List String)
     (aggs : List (α × String)) :
-    StepRel isLimit (aggregateT S L site env groupBy aggs) (aggregateT S LimEnv.unlimited site env groupBy aggs) where
+    StepRelCore isLimit (aggregateT S L site env groupBy aggs) (aggregateT S LimEnv.unlimited site env groupBy aggs) where
   done _ := rfl
-  flush st := aggFinish_limRel isLimit S L hL hS site env groupBy aggs _
   fwd st e _ := by
     simp only [aggregateT]
     cases ht : L.time (.inner site) st.n with
@@ -391,6 +473,283 @@ theorem existsRow_limRel (isLimit : ε → Bool) (Q : Quirks) (hq : Q.existsSwal
       obtain ⟨ys, rfl⟩ := hU
       exact .refl _ _
 
+/-! ### parked failures: `parkT` of a limited operator vs `parkT` of its unlimited version -/
+
+section parkrel
+variable {σ : Type}
+
+/-- states of two `parkT`s: same operator state; the same pending failure, or a limit error pending
+    on the limited side -/
+def ParkSim (isLimit : ε → Bool) (a b : σ × Option ε) : Prop :=
+  a.1 = b.1 ∧ (a.2 = b.2 ∨ ∃ e, a.2 = some e ∧ isLimit e = true)
+
+@[simp] theorem firstSome_some {β : Type} (a : β) (b : Option β) : firstSome (some a) b = some a := rfl
+@[simp] theorem firstSome_none {β : Type} (b : Option β) : firstSome none b = b := by cases b <;> rfl
+
+theorem parkT_step_none (t : Trans σ ε ρ) (parks : σ → Except ε ρ → Option ε) (fp : σ → Option ε) (drop : Bool)
+    (a : σ) (pa : Option ε) (x : Except ε ρ) (h : firstSome pa (parks a x) = none) :
+    (parkT t parks fp drop).step (a, pa) x = (((t.step a x).1, none), (t.step a x).2) := by
+  simp only [parkT, h]
+
+theorem parkT_step_some_nil (t : Trans σ ε ρ) (parks : σ → Except ε ρ → Option ε) (fp : σ → Option ε) (drop : Bool)
+    (a : σ) (pa : Option ε) (x : Except ε ρ) (e : ε) (h : firstSome pa (parks a x) = some e)
+    (ho : (t.step a x).2 = []) :
+    (parkT t parks fp drop).step (a, pa) x = (((t.step a x).1, some e), []) := by
+  simp only [parkT, h, ho]
+
+theorem parkT_step_some_cons (t : Trans σ ε ρ) (parks : σ → Except ε ρ → Option ε) (fp : σ → Option ε) (drop : Bool)
+    (a : σ) (pa : Option ε) (x : Except ε ρ) (e : ε) (y : Except ε ρ) (ys : Stream ε ρ)
+    (h : firstSome pa (parks a x) = some e) (ho : (t.step a x).2 = y :: ys) :
+    (parkT t parks fp drop).step (a, pa) x = (((t.step a x).1, none), .error e :: ys) := by
+  simp only [parkT, h, ho]
+
+/-- an operator that never says `done` and yields nothing at the end owes a pending failure as its
+    next item, whatever input follows -/
+theorem parkT_owes (t : Trans σ ε ρ) (hnd : ∀ st, t.done st = false) (hfl : ∀ st, t.flush st = [])
+    (parks : σ → Except ε ρ → Option ε) (e : ε) :
+    ∀ (xs : Stream ε ρ) (st : σ), cut ((parkT t parks noFlushParks false).run (st, some e) xs) = [.error e] := by
+  intro xs
+  induction xs with
+  | nil =>
+    intro st
+    rw [Trans.run_nil]
+    simp [parkT, hnd st, hfl st, cut]
+  | cons x xs ih =>
+    intro st
+    rw [parkT_run_cons _ _ _ _ _ _ _ _ (hnd st)]
+    cases hout : (t.step st x).2 with
+    | nil =>
+      rw [parkT_step_some_nil _ _ _ _ _ _ _ e (by simp) hout]
+      simpa using ih _
+    | cons y ys =>
+      rw [parkT_step_some_cons _ _ _ _ _ _ _ e y ys (by simp) hout]
+      simp [cut]
+
+theorem LimRel.nil_right (isLimit : ε → Bool) (a : Stream ε ρ) (h : LimRel isLimit a []) :
+    a = [] ∨ ∃ e rest, a = .error e :: rest ∧ isLimit e = true := by
+  rcases h with h | ⟨pre, e, hc, hl, hp⟩
+  · left
+    cases a with
+    | nil => rfl
+    | cons y ys => cases y <;> simp [cut] at h
+  · right
+    have : pre = [] := by
+      obtain ⟨z, hz⟩ := hp
+      cases pre with
+      | nil => rfl
+      | cons p ps => simp at hz
+    subst this
+    obtain ⟨_, ta, rfl⟩ := of_cut_eq_append_error a [] e hc
+    exact ⟨e, ta, rfl, hl⟩
+
+/-- streaming operators (Project, Unwind): never `done`, nothing at the end -/
+theorem parkT_stream_stepRel (isLimit : ε → Bool) (tL tU : Trans σ ε ρ)
+    (parksL parksU : σ → Except ε ρ → Option ε)
+    (hndL : ∀ st, tL.done st = false) (hndU : ∀ st, tU.done st = false)
+    (hflL : ∀ st, tL.flush st = []) (hflU : ∀ st, tU.flush st = [])
+    (hst : ∀ st x, (tL.step st x).1 = (tU.step st x).1)
+    (hstep : ∀ st x, parksL st x = none → LimRel isLimit (tL.step st x).2 (tU.step st x).2 ∧
+      (allOk (tL.step st x).2 = true → (tL.step st x).2 = (tU.step st x).2))
+    (hfwd : ∀ st e, ∃ rest, (tL.step st (.error e)).2 = .error e :: rest)
+    (hperr : ∀ st e, parksL st (.error e) = none)
+    (hpark : ∀ st x, parksL st x = parksU st x ∨ ∃ e, parksL st x = some e ∧ isLimit e = true) :
+    StepRel isLimit (ParkSim isLimit) (parkT tL parksL noFlushParks false) (parkT tU parksU noFlushParks false) := by
+  -- what the two sides have to report with a step
+  have hf : ∀ (a : σ) (pa pb : Option ε) (x : Except ε ρ), (pa = pb ∨ ∃ e, pa = some e ∧ isLimit e = true) →
+      firstSome pa (parksL a x) = firstSome pb (parksU a x) ∨
+        ∃ e, firstSome pa (parksL a x) = some e ∧ isLimit e = true := by
+    intro a pa pb x hp
+    cases pa with
+    | some e =>
+      rcases hp with h | ⟨e', he', hl⟩
+      · left; rw [← h]; simp
+      · right; injection he' with he'; subst he'; exact ⟨e, by simp, hl⟩
+    | none =>
+      have hpb : pb = none := by
+        rcases hp with h | ⟨e', he', _⟩
+        · exact h.symm
+        · cases he'
+      subst hpb
+      simpa using hpark a x
+  refine ⟨fun a b h => by simp [parkT, hndL, hndU], ?_, ?_, ?_⟩
+  · -- step
+    rintro ⟨a, pa⟩ ⟨b, pb⟩ x ⟨hab, hp⟩
+    simp only at hab hp
+    subst hab
+    cases hfL : firstSome pa (parksL a x) with
+    | none =>
+      have hpa : pa = none ∧ parksL a x = none := by
+        cases pa with
+        | some e => simp at hfL
+        | none => exact ⟨rfl, by simpa using hfL⟩
+      have hfU : firstSome pb (parksU a x) = none := by
+        rcases hf a pa pb x hp with h | ⟨e, he, _⟩
+        · rw [← h]; exact hfL
+        · rw [hfL] at he; cases he
+      obtain ⟨hrel, heq⟩ := hstep a x hpa.2
+      rw [parkT_step_none _ _ _ _ _ _ _ hfL, parkT_step_none _ _ _ _ _ _ _ hfU]
+      left
+      exact ⟨hrel, fun ho => ⟨heq ho, hst a x, Or.inl rfl⟩⟩
+    | some e =>
+      have hfU : firstSome pb (parksU a x) = some e ∨ isLimit e = true := by
+        rcases hf a pa pb x hp with h | ⟨e', he', hl⟩
+        · left; rw [← h]; exact hfL
+        · right; rw [hfL] at he'; injection he' with he'; subst he'; exact hl
+      cases hoL : (tL.step a x).2 with
+      | nil =>
+        rw [parkT_step_some_nil _ _ _ _ _ _ _ e hfL hoL]
+        by_cases hl : isLimit e = true
+        · -- nothing now, a limit error is owed
+          right; right
+          exact ⟨rfl, e, fun xs => parkT_owes tL hndL hflL parksL e xs _, Or.inl hl⟩
+        · have hfu : firstSome pb (parksU a x) = some e := by
+            rcases hfU with h | h
+            · exact h
+            · exact absurd h hl
+          cases hoU : (tU.step a x).2 with
+          | nil =>
+            rw [parkT_step_some_nil _ _ _ _ _ _ _ e hfu hoU]
+            left
+            exact ⟨.refl _ _, fun _ => ⟨rfl, hst a x, Or.inl rfl⟩⟩
+          | cons z zs =>
+            rw [parkT_step_some_cons _ _ _ _ _ _ _ e z zs hfu hoU]
+            right; right
+            exact ⟨rfl, e, fun xs => parkT_owes tL hndL hflL parksL e xs _, Or.inr ⟨zs, rfl⟩⟩
+      | cons y ys =>
+        rw [parkT_step_some_cons _ _ _ _ _ _ _ e y ys hfL hoL]
+        by_cases hl : isLimit e = true
+        · left; exact ⟨LimRel.limit_error isLimit e _ _ hl, fun h => by simp at h⟩
+        · have hfu : firstSome pb (parksU a x) = some e := by
+            rcases hfU with h | h
+            · exact h
+            · exact absurd h hl
+          cases hoU : (tU.step a x).2 with
+          | nil =>
+            rw [parkT_step_some_nil _ _ _ _ _ _ _ e hfu hoU]
+            right; left
+            exact ⟨[], e, ys, rfl, rfl, rfl, fun xs => parkT_owes tU hndU hflU parksU e xs _⟩
+          | cons z zs =>
+            rw [parkT_step_some_cons _ _ _ _ _ _ _ e z zs hfu hoU]
+            left
+            exact ⟨Or.inl (by simp [cut]), fun h => by simp at h⟩
+  · -- flush
+    rintro ⟨a, pa⟩ ⟨b, pb⟩ ⟨hab, hp⟩
+    simp only at hab hp
+    subst hab
+    simp only [parkT, noFlushParks, hflL, hflU]
+    cases pa with
+    | none =>
+      have hpb : pb = none := by
+        rcases hp with h | ⟨e', he', _⟩
+        · exact h.symm
+        · cases he'
+      subst hpb
+      exact .refl _ _
+    | some e =>
+      rcases hp with h | ⟨e', he', hl⟩
+      · rw [← h]; exact .refl _ _
+      · injection he' with he'; subst he'
+        simp only [firstSome_some]
+        exact LimRel.limit_error isLimit _ _ _ hl
+  · -- an `Err` item
+    rintro ⟨a, pa⟩ ⟨b, pb⟩ e ⟨hab, hp⟩ _
+    simp only at hab hp
+    subst hab
+    obtain ⟨rest, he⟩ := hfwd a e
+    cases pa with
+    | none =>
+      rw [parkT_step_none _ _ _ _ _ _ _ (by simp [hperr a e])]
+      exact ⟨e, rest, he, Or.inl rfl⟩
+    | some e2 =>
+      rw [parkT_step_some_cons _ _ _ _ _ _ _ e2 _ rest (by simp) he]
+      refine ⟨e2, rest, rfl, ?_⟩
+      rcases hp with h | ⟨e', he', hl⟩
+      · right; right
+        intro xs
+        rw [← h]
+        exact parkT_owes tU hndU hflU parksU e2 xs _
+      · injection he' with he'; subst he'; exact Or.inr (Or.inl hl)
+
+/-- blocking operators (OrderBy, Aggregate): failures are parked only by the final work -/
+theorem parkT_block_stepRel (isLimit : ε → Bool) (tL tU : Trans σ ε ρ) (h0 : StepRelCore isLimit tL tU)
+    (fpL fpU : σ → Option ε)
+    (hflush : ∀ st, fpL st = none → LimRel isLimit (tL.flush st) (tU.flush st))
+    (hfp : ∀ st, fpL st = fpU st ∨ ∃ e, fpL st = some e ∧ isLimit e = true) :
+    StepRel isLimit (fun a b => a = b ∧ a.2 = none)
+      (parkT tL (fun _ _ => none) fpL false) (parkT tU (fun _ _ => none) fpU false) := by
+  refine ⟨?_, ?_, ?_, ?_⟩
+  · rintro ⟨a, pa⟩ _ ⟨rfl, _⟩; exact h0.done a
+  · rintro ⟨a, pa⟩ _ x ⟨rfl, hpa⟩
+    simp only at hpa
+    subst hpa
+    obtain ⟨hrel, heq⟩ := h0.step a x
+    left
+    rw [parkT_step_none _ _ _ _ _ _ _ (by simp), parkT_step_none _ _ _ _ _ _ _ (by simp)]
+    refine ⟨hrel, fun ho => ?_⟩
+    have := heq ho
+    exact ⟨by rw [this], by rw [this], rfl⟩
+  · rintro ⟨a, pa⟩ _ ⟨rfl, hpa⟩
+    simp only at hpa
+    subst hpa
+    simp only [parkT, firstSome_none]
+    rcases hfp a with h | ⟨e, he, hl⟩
+    · cases hL : fpL a with
+      | none =>
+        rw [← h, hL]
+        exact hflush a hL
+      | some e =>
+        rw [← h, hL]
+        left
+        cases tL.flush a <;> cases tU.flush a <;> simp [cut]
+    · rw [he]
+      cases tL.flush a <;> exact LimRel.limit_error isLimit _ _ _ hl
+  · rintro ⟨a, pa⟩ _ e ⟨rfl, hpa⟩ hd
+    simp only at hpa
+    subst hpa
+    obtain ⟨e', rest, he, hl⟩ := h0.fwd a e hd
+    rw [parkT_step_none _ _ _ _ _ _ _ (by simp)]
+    exact ⟨e', rest, he, hl.elim Or.inl (fun x => Or.inr (Or.inl x))⟩
+
+theorem findSome_lim (isLimit : ε → Bool) {β : Type} (fL fU : β → Option ε)
+    (h : ∀ x, fL x = fU x ∨ ∃ e, fL x = some e ∧ isLimit e = true) (xs : List β) :
+    xs.findSome? fL = xs.findSome? fU ∨ ∃ e, xs.findSome? fL = some e ∧ isLimit e = true := by
+  induction xs with
+  | nil => left; rfl
+  | cons x xs ih =>
+    simp only [List.findSome?_cons]
+    rcases h x with heq | ⟨e, he, hl⟩
+    · rw [heq]
+      cases fU x with
+      | some e => left; rfl
+      | none => exact ih
+    · right; rw [he]; exact ⟨e, rfl, hl⟩
+
+end parkrel
+
+omit [DecidableEq κ] in
+theorem rowParks_rel (isLimit : ε → Bool) (S : Sem χ ρ ν ε κ α) (L : LimEnv ε)
+    (hS : S.LimitLawful L.coll isLimit) (env : ρ) (es : List χ) {σ : Type} (st : σ) (x : Except ε ρ) :
+    rowParks S L env es st x = rowParks S LimEnv.unlimited env es st x ∨
+      ∃ e, rowParks S L env es st x = some e ∧ isLimit e = true := by
+  cases x with
+  | error e => left; rfl
+  | ok r => exact findSome_lim isLimit _ _ (fun e => hS.park e env r) es
+
+omit [DecidableEq κ] in
+theorem orderByFlushParks_rel (isLimit : ε → Bool) (S : Sem χ ρ ν ε κ α) (L : LimEnv ε)
+    (hS : S.LimitLawful L.coll isLimit) (env : ρ) (keys : List (χ × Bool)) (st : BlockSt (Stream ε ρ)) :
+    orderByFlushParks S L env keys st = orderByFlushParks S LimEnv.unlimited env keys st ∨
+      ∃ e, orderByFlushParks S L env keys st = some e ∧ isLimit e = true :=
+  findSome_lim isLimit _ _ (fun it => rowParks_rel isLimit S L hS env _ () it) _
+
+omit [DecidableEq κ] in
+theorem aggregateFlushParks_rel (isLimit : ε → Bool) (S : Sem χ ρ ν ε κ α) (L : LimEnv ε)
+    (hS : S.LimitLawful L.coll isLimit) (env : ρ) (aggs : List (α × String)) (st : BlockSt (List (κ × List ρ))) :
+    aggregateFlushParks S L env aggs st = aggregateFlushParks S LimEnv.unlimited env aggs st ∨
+      ∃ e, aggregateFlushParks S L env aggs st = some e ∧ isLimit e = true :=
+  findSome_lim isLimit _ _ (fun g => hS.aggPark aggs env g.2) _
+
+
 end ops
 
 /-! ### the tree -/
@@ -404,7 +763,7 @@ theorem runL_limRel (isLimit : ε → Bool) (S : Sem χ ρ ν ε κ α) (Q : Qui
     (L : LimEnv ε) (hL : L.Lawful isLimit) (hS : S.LimitLawful L.coll isLimit) (p : Plan χ ρ ε α) :
     ∀ (site : Site) (env : ρ),
       LimRel isLimit (runL S Q L site env p) (runL S Q LimEnv.unlimited site env p) := by
-  obtain ⟨hq1, hq2, hq3, hq4, hq5⟩ := hq
+  obtain ⟨hq1, hq2, hq3, hq4, hq5, hq6⟩ := hq
   induction p with
   | source items => intro site env; exact guard_limRel isLimit L hL site _ _ (.refl _ _)
   | arg => intro site env; exact guard_limRel isLimit L hL site _ _ (.refl _ _)
@@ -414,19 +773,48 @@ theorem runL_limRel (isLimit : ε → Bool) (S : Sem χ ρ ν ε κ α) (Q : Qui
       ((mapT_stepRel isLimit _ _ (filterRow_limRel isLimit S Q L hS env pred)).run () _ _ (ih _ _))
   | project projs inp ih =>
     intro site env
-    refine guard_limRel isLimit L hL site _ _ ((mapT_stepRel isLimit _ _ (fun r => ?_)).run () _ _ (ih _ _))
-    rcases projectRow_lim isLimit S L hS env projs r with h | ⟨e, he, hl⟩
-    · rw [h]; exact .refl _ _
-    · rw [he]; exact LimRel.limit_error isLimit e _ _ hl
+    simp only [runL, hq6]
+    refine guard_limRel isLimit L hL site _ _ ((parkT_stream_stepRel isLimit
+      (projectT S L env projs) (projectT S LimEnv.unlimited env projs)
+      (rowParks S L env (projs.map (·.2))) (rowParks S LimEnv.unlimited env (projs.map (·.2)))
+      (fun _ => rfl) (fun _ => rfl)
+      (fun _ => rfl) (fun _ => rfl) (fun _ _ => rfl) ?_ (fun _ e => ⟨[], rfl⟩) (fun _ _ => rfl)
+      (fun st x => rowParks_rel isLimit S L hS env _ st x)).run _ _ ⟨rfl, Or.inl rfl⟩ _ _ (ih _ _))
+    intro st x hnp
+    cases x with
+    | error e => exact ⟨.refl _ _, fun _ => rfl⟩
+    | ok r =>
+      have hnp' : ∀ p ∈ projs, S.park L.coll p.2 env r = none := by
+        intro p hp
+        exact (List.findSome?_eq_none_iff.1 hnp) p.2 (List.mem_map.2 ⟨p, hp, rfl⟩)
+      show LimRel isLimit [projectRow S L env projs r] [projectRow S LimEnv.unlimited env projs r] ∧ _
+      rcases projectRow_lim isLimit S L hS env projs r hnp' with h | ⟨e, he, hl⟩
+      · exact ⟨by rw [h]; exact .refl _ _, fun _ => by simp only [projectT, mapT]; rw [h]⟩
+      · refine ⟨by rw [he]; exact LimRel.limit_error isLimit e _ _ hl, fun ho => ?_⟩
+        simp only [projectT, mapT, he] at ho
+        simp at ho
   | distinct inp ih =>
     intro site env
     simp only [runL, hq1]
     exact guard_limRel isLimit L hL site _ _
-      ((StepRel.same isLimit (distinctT S false) (fun _ e _ => ⟨[], rfl⟩)).run [] _ _ (ih _ _))
+      ((StepRel0.same isLimit (distinctT S false) (fun _ e _ => ⟨[], rfl⟩)).run [] _ _ (ih _ _))
   | unwind e alias inp ih =>
     intro site env
-    exact guard_limRel isLimit L hL site _ _
-      ((flatMapT_stepRel isLimit _ _ (unwindRow_limRel isLimit S L hL hS site env e alias)).run 0 _ _ (ih _ _))
+    simp only [runL, hq6]
+    refine guard_limRel isLimit L hL site _ _ ((parkT_stream_stepRel isLimit
+      (flatMapT (unwindRow S L site env e alias)) (flatMapT (unwindRow S LimEnv.unlimited site env e alias))
+      (rowParks S L env [e]) (rowParks S LimEnv.unlimited env [e])
+      (fun _ => rfl) (fun _ => rfl)
+      (fun _ => rfl) (fun _ => rfl) (fun _ x => by cases x <;> rfl) ?_ (fun _ e => ⟨[], rfl⟩) (fun _ _ => rfl)
+      (fun st x => rowParks_rel isLimit S L hS env _ st x)).run _ _ ⟨rfl, Or.inl rfl⟩ _ _ (ih _ _))
+    intro st x hnp
+    cases x with
+    | error e => exact ⟨.refl _ _, fun _ => rfl⟩
+    | ok r =>
+      have hnp' : S.park L.coll e env r = none := by
+        simpa [rowParks] using hnp
+      have hrel := unwindRow_limRel isLimit S L hL hS site env e alias st r hnp'
+      exact ⟨hrel, fun ho => hrel.eq_of_allOk isLimit _ _ ho⟩
   | expand f inp ih =>
     intro site env
     exact guard_limRel isLimit L hL site _ _
@@ -437,22 +825,28 @@ theorem runL_limRel (isLimit : ε → Bool) (S : Sem χ ρ ν ε κ α) (Q : Qui
     apply guard_limRel isLimit L hL site
     cases S.window n env with
     | error e => exact .refl _ _
-    | ok k => exact (StepRel.same isLimit (skipT false) (fun _ e _ => ⟨[], rfl⟩)).run k _ _ (ih _ _)
+    | ok k => exact (StepRel0.same isLimit (skipT false) (fun _ e _ => ⟨[], rfl⟩)).run k _ _ (ih _ _)
   | limit n inp ih =>
     intro site env
     simp only [runL]
     apply guard_limRel isLimit L hL site
     cases S.window n env with
     | error e => exact .refl _ _
-    | ok k => exact (StepRel.same isLimit limitT (fun _ e _ => ⟨[], rfl⟩)).run k _ _ (ih _ _)
+    | ok k => exact (StepRel0.same isLimit limitT (fun _ e _ => ⟨[], rfl⟩)).run k _ _ (ih _ _)
   | orderBy keys inp ih =>
     intro site env
+    simp only [runL, hq6]
     exact guard_limRel isLimit L hL site _ _
-      ((orderByT_stepRel isLimit S Q hq4 L hL hS site env keys).run _ _ _ (ih _ _))
+      ((parkT_block_stepRel isLimit _ _ (orderByT_core isLimit S Q hq4 L hL site env keys) _ _
+        (fun st hnp => orderByFinish_limRel isLimit S Q hq4 L hS env keys _ hnp)
+        (orderByFlushParks_rel isLimit S L hS env keys)).run _ _ ⟨rfl, rfl⟩ _ _ (ih _ _))
   | aggregate groupBy aggs inp ih =>
     intro site env
+    simp only [runL, hq6]
     exact guard_limRel isLimit L hL site _ _
-      ((aggregateT_stepRel isLimit S L hL hS site env groupBy aggs).run _ _ _ (ih _ _))
+      ((parkT_block_stepRel isLimit _ _ (aggregateT_core isLimit S L hL hS site env groupBy aggs) _ _
+        (fun st hnp => aggFinish_limRel isLimit S L hL hS site env groupBy aggs _ hnp)
+        (aggregateFlushParks_rel isLimit S L hS env aggs)).run _ _ ⟨rfl, rfl⟩ _ _ (ih _ _))
   | union all l r ihl ihr =>
     intro site env
     simp only [runL, hq2]
@@ -461,7 +855,7 @@ theorem runL_limRel (isLimit : ε → Bool) (S : Sem χ ρ ν ε κ α) (Q : Qui
     cases all with
     | true => exact hcat
     | false =>
-      exact (StepRel.same isLimit (distinctT S false) (fun _ e _ => ⟨[], rfl⟩)).run [] _ _ hcat
+      exact (StepRel0.same isLimit (distinctT S false) (fun _ e _ => ⟨[], rfl⟩)).run [] _ _ hcat
   | filterExists sub inp ihs ihi =>
     intro site env
     exact guard_limRel isLimit L hL site _ _
